@@ -556,6 +556,32 @@ def run(report, p):
             r7.check(u.id not in reach, dh, u.ast, f"the list of formats to verify can be empty when the verification starts (a path reaches `sorted({ln})` without any append): nothing is compared and verify -dh exits 0 whatever the tree looks like", construct=f"verify-format list {ln} can be empty")
     r7.check(True, dh, dh.node, "")
 
+    # ------------------------------------------------------------------ R9.9
+    r9 = report.rule(
+        "R9.9",
+        "the directory entries a folder is compared with are those of the history that was asked: find_directory_hash_entries_for_path collects entries from the generations of `self` only "
+        "(no loop over child histories): the root hashes of a grandchild history describe the grandchild's folder, not this one - comparing them makes an untouched tree exit 12",
+        1,
+    )
+    fde = p.funcs.get("ascmhl.history.MHLHistory.find_directory_hash_entries_for_path")
+    if fde is None:
+        raise AnalysisError("MHLHistory.find_directory_hash_entries_for_path not found")
+    n_loops = 0
+    for lp in [n for n in walk_no_nested(fde.node) if isinstance(n, ast.For)]:
+        txt = norm(lp.iter)
+        collects = any(isinstance(x, (ast.Assign, ast.AugAssign)) and "entries" in norm(x.targets[0] if isinstance(x, ast.Assign) else x.target) or (isinstance(x, ast.Call) and isinstance(x.func, ast.Attribute) and x.func.attr in ("append", "extend") and "entries" in norm(x.func.value)) for st in lp.body for x in ast.walk(st))
+        if not collects:
+            continue
+        n_loops += 1
+        r9.instance(fde, lp, f"for {norm(lp.target)} in {txt[:50]}")
+        other = any(k in txt for k in ("child_histor", "walk_child", "parent_history", "referenced_hash_lists"))
+        for o in pr.origins(lp.iter, fde):
+            if any(st_[0] == "call" and st_[1].endswith(("walk_child_histories",)) or (st_[0] == "attr" and st_[2] in ("child_histories", "child_history_mappings")) for st_ in subterms(o)):
+                other = True
+        r9.check(not other, fde, lp.iter, f"directory entries are collected while iterating `{txt[:60]}` - histories other than the one that was asked: a folder is then compared with the root hashes of histories nested below it, which describe other folders", construct="directory entries collected from other histories")
+    if n_loops == 0:
+        raise AnalysisError("find_directory_hash_entries_for_path: the loops that collect the entries were not found")
+
     # ------------------------------------------------------------------ R9.8
     r8 = report.rule(
         "R9.8",
